@@ -806,15 +806,49 @@ func serveGet(run *dialRun, ci int, c net.Conn, br *bufio.Reader, pc *peerCfg, d
 		name := strings.Trim(strings.SplitN(e, ";", 2)[0], " \t")
 		exts = append(exts, strings.ToLower(name))
 	}
+	// Caller headers: for the i-th [k, v] the caller supplied, seen[i] says whether
+	// v is among the values of field k on the wire (as a field line of its own or
+	// as an element of a comma-joined line), pos[i] its position among those
+	// values (1-based, 0 = absent).  Values are matched front to back, so that
+	// pos tells whether several values of one field kept the caller's order.
 	seen := []bool{}
+	pos := []int{}
+	flat := map[string][]string{}
+	last := map[string]int{}
 	for _, h := range pc.hdrs {
-		ok := false
-		for _, v := range hv[strings.ToLower(h.K)] {
-			if v == h.V {
-				ok = true
+		k := strings.ToLower(h.K)
+		if _, ok := flat[k]; !ok {
+			vals := []string{}
+			for _, line := range hv[k] {
+				if strings.Contains(h.V, ",") || !strings.Contains(line, ",") {
+					vals = append(vals, line)
+					continue
+				}
+				for _, el := range strings.Split(line, ",") {
+					vals = append(vals, strings.Trim(el, " \t"))
+				}
+			}
+			flat[k] = vals
+		}
+		at := 0
+		for j := last[k]; j < len(flat[k]); j++ {
+			if flat[k][j] == h.V {
+				at = j + 1
+				break
 			}
 		}
-		seen = append(seen, ok)
+		if at == 0 {
+			for j, v := range flat[k] {
+				if v == h.V {
+					at = j + 1
+					break
+				}
+			}
+		} else {
+			last[k] = at
+		}
+		seen = append(seen, at > 0)
+		pos = append(pos, at)
 	}
 	jar := false
 	for _, v := range hv["cookie"] {
@@ -837,7 +871,7 @@ func serveGet(run *dialRun, ci int, c net.Conn, br *bufio.Reader, pc *peerCfg, d
 		"wf": wellformed, "std": stdErr == nil, "hosth": hosth, "cnt": cnt,
 		"upg": lowerAll(splitList(hv["upgrade"])), "con": lowerAll(splitList(hv["connection"])), "ver": ver,
 		"keylen": keyLen, "keyid": run.keyIDs.id(key), "protos": splitList(hv["sec-websocket-protocol"]),
-		"exts": exts, "seen": seen, "jar": jar})
+		"exts": exts, "seen": seen, "pos": pos, "jar": jar})
 	run.mu.Lock()
 	run.prevKey = key
 	run.mu.Unlock()
